@@ -176,6 +176,9 @@ impl Wake for AckWatch {
 
 type LoopResult = Result<ctx::Result<()>, String>;
 
+/// more events than any single quiesce of the generated scenarios can legitimately produce
+const SPIN_LIMIT: usize = 400;
+
 struct Task {
     handle: tokio::task::JoinHandle<()>,
     stop: tokio::sync::oneshot::Sender<()>,
@@ -210,6 +213,8 @@ struct Session {
     /// own messages emitted by the last quiesce
     emitted: Vec<validator::Signed<validator::ConsensusMsg>>,
     ops: Vec<Value>,
+    /// the replica task was found spinning: the rest of the case is skipped
+    broken: bool,
 }
 
 fn sel() -> validator::LeaderSelection {
@@ -255,6 +260,7 @@ impl Session {
             durable: v2::ChonkyV2State::default(),
             emitted: vec![],
             ops: vec![],
+            broken: false,
         }
     }
 
@@ -301,11 +307,12 @@ impl Session {
         )
     }
 
-    /// Lets every task run until nothing observable changes over several scheduler rounds.
-    async fn settle(&self) {
+    /// Lets every task run until nothing observable changes over several scheduler rounds. Returns false if the
+    /// replica task keeps producing events without ever blocking (a loop that spins).
+    async fn settle(&self) -> bool {
         let mut last = self.progress();
         let mut stable = 0;
-        for _ in 0..2000 {
+        for _ in 0..600 {
             for _ in 0..8 {
                 tokio::task::yield_now().await;
             }
@@ -313,13 +320,17 @@ impl Session {
             if p == last {
                 stable += 1;
                 if stable >= 4 {
-                    return;
+                    return true;
                 }
             } else {
                 stable = 0;
                 last = p;
             }
+            if p.0 > SPIN_LIMIT {
+                return false;
+            }
         }
+        false
     }
 
     fn env(&self) -> Value {
@@ -432,6 +443,7 @@ impl LoopProp {
 
     /// Executes one op on the real code; returns the op completed with what it ran in, and the observation.
     fn exec_full(&mut self, op: &Value, out: &mut Out) -> (Value, Value) {
+        HEARTBEAT.fetch_add(1, std::sync::atomic::Ordering::Relaxed);
         let kind = op["op"].as_str().unwrap_or("").to_string();
         out.count(&format!("op={kind}"));
         if kind == "init" {
@@ -488,7 +500,14 @@ impl LoopProp {
                 let pending_before = s.unresolved();
                 // the view timer is due (as far as an observer can tell) when the task gets to run
                 let tick_due = !fresh && s.now >= s.armed_at + s.vt;
-                rt.block_on(s.settle());
+                if !rt.block_on(s.settle()) {
+                    Self::fail(s, out, "loop:spinning", "the replica task keeps running without ever blocking in recv", &op);
+                    s.broken = true;
+                    if let Some(t) = s.task.take() {
+                        let _ = t.stop.send(());
+                        std::mem::forget(t.handle);
+                    }
+                }
                 let (items, closed) = s.collect();
                 // ---------------------------------------------------------------- observation
                 let mut trace = vec![];
@@ -564,6 +583,11 @@ impl LoopProp {
                 if acked.windows(2).any(|p| p[0] >= p[1]) {
                     Self::fail(s, out, "loop:ack_order", "requests were acknowledged out of queue order", &op);
                 }
+                // the acknowledgement comes after the handler's effects: unless the timer fired afterwards, the last thing the
+                // task did before blocking was to acknowledge the last request it took
+                if !acked.is_empty() && !tick_due && trace.last().is_some_and(|x| x.get("ack").is_none()) {
+                    Self::fail(s, out, "loop:ack_before_done", "effects of a handler were observed after the acknowledgement of its request", &op);
+                }
                 if acked.iter().any(|id| !pending_before.contains(id)) {
                     Self::fail(s, out, "loop:ack_unknown", "an acknowledgement for a request that was not waiting", &op);
                 }
@@ -587,7 +611,7 @@ impl LoopProp {
                 s.ops.push(op.clone());
                 if let Some(t) = s.task.take() {
                     let _ = t.stop.send(());
-                    rt.block_on(s.settle());
+                    let _ = rt.block_on(s.settle());
                     if !t.handle.is_finished() {
                         Self::fail(s, out, "loop:shutdown_hangs", "the replica task did not end after its context was cancelled", &op);
                     }
@@ -646,6 +670,10 @@ impl Dir<'_> {
         self.p.s.as_ref().unwrap()
     }
     fn run(&mut self, op: Value) -> Value {
+        if self.s().broken {
+            self.steps += 1000;
+            return json!({"pending": []});
+        }
         let (op, obs) = self.p.exec_full(&op, self.out);
         self.out.emit(op, obs.clone());
         self.steps += 1;
@@ -661,7 +689,7 @@ impl Dir<'_> {
         self.s().armed_at + self.vt
     }
     fn can_arrive(&self) -> bool {
-        !self.waiting && (!self.s().started || self.s().now < self.deadline())
+        !self.s().broken && !self.waiting && (!self.s().started || self.s().now < self.deadline())
     }
     fn arrive(&mut self, from: usize, sig_ok: bool, msg: Value) {
         if !self.can_arrive() {
@@ -975,7 +1003,7 @@ impl Dir<'_> {
 impl LoopProp {
     fn scenario(&mut self, opts: &Opts, out: &mut Out) {
         let mut rng = opts.rng();
-        let budget = opts.n.max(60);
+        let budget = out.n_ops + opts.n.max(60);
         let mut case = 0u64;
         while out.n_ops < budget {
             let weights = if case % 3 == 0 { vec![1; rng.gen_range(4..=6)] } else {
@@ -1094,6 +1122,28 @@ impl Prop for LoopProp {
     }
 }
 
+/// A replica task that never yields (e.g. a loop that ignores its cancelled context) would hang `block_on` for ever:
+/// the watchdog turns that into a harness failure.
+static HEARTBEAT: std::sync::atomic::AtomicU64 = std::sync::atomic::AtomicU64::new(0);
+
 fn main() {
+    std::thread::spawn(|| {
+        let mut last = u64::MAX;
+        let mut idle = 0;
+        loop {
+            std::thread::sleep(std::time::Duration::from_secs(5));
+            let h = HEARTBEAT.load(std::sync::atomic::Ordering::Relaxed);
+            if h == last {
+                idle += 1;
+                if idle >= 12 {
+                    eprintln!("harness error: op {h} did not complete within 60 s: the replica task does not yield (VIOLATION of the loop's liveness)");
+                    std::process::exit(3);
+                }
+            } else {
+                idle = 0;
+                last = h;
+            }
+        }
+    });
     vharness::main_for(&mut LoopProp::new());
 }
